@@ -183,9 +183,6 @@ static KSI_AsyncHandle *c13_mk_slot_handle(KSI_CTX *ctx, const size_t slot) {
 	if (heldByTransport) { h->ref = 2; c13_tr.held_pre[slot] = h; }
 	h->reqTime = ND(long, slot_req_time); h->sndTime = ND(long, slot_snd_time);
 	ASSUME(0 <= h->reqTime && h->reqTime <= h->sndTime && h->sndTime <= c13_now);
-#ifdef DIAG_SND_EQ_NOW
-	ASSUME(h->sndTime == c13_now);
-#endif
 	h->parentId = ND(size_t, slot_parent);
 	if (st == KSI_ASYNC_STATE_RESPONSE_RECEIVED) {
 #if EXT_FLAVOUR
@@ -252,9 +249,6 @@ static KSI_AsyncClient *c13_mk_client(KSI_CTX *ctx, struct c13_snap *pre) {
 	int res;
 	memset(&c13_tr, 0, sizeof(c13_tr));
 	c13_now = ND(long, now); ASSUME(0 <= c13_now && c13_now < C13_TIME_MAX);
-#ifdef TIME_BITS     /* optional narrowing of clock and timeout (makes the double comparison of difftime cheap for SAT) */
-	ASSUME(c13_now < ((time_t)1 << TIME_BITS));
-#endif
 	res = KSI_AbstractAsyncClient_new(ctx, &c); ASSUME(res == KSI_OK && c != NULL);
 	c->clientImpl = &c13_tr;
 	c->clientImpl_free = NULL;
@@ -265,12 +259,6 @@ static KSI_AsyncClient *c13_mk_client(KSI_CTX *ctx, struct c13_snap *pre) {
 	res = asyncClient_setOption(c, KSI_ASYNC_OPT_REQUEST_CACHE_SIZE, (void *)(size_t)(CACHE_S - 1)); ASSUME(res == KSI_OK);
 	{
 		size_t tmo = ND(size_t, rcv_timeout);
-#ifdef TIME_BITS
-		ASSUME(tmo < ((size_t)1 << TIME_BITS));
-#endif
-#ifdef RCV_TMO      /* receive timeout fixed by the instance */
-		ASSUME(tmo == (size_t)(RCV_TMO));
-#endif
 		res = asyncClient_setOption(c, KSI_ASYNC_OPT_RCV_TIMEOUT, (void *)tmo); ASSUME(res == KSI_OK);
 		c13_difftime_threshold = tmo; c13_difftime_threshold_set = 1;
 	}
